@@ -84,6 +84,17 @@ Proof.
     apply N.add_le_mono_r. now apply mE_mono.
 Qed.
 
+(** ** one driver step, in the form the driver uses it: the node [e], its simplified children [cs] *)
+Corollary simplify_decreases_cs e cs r : wt e = true -> Forall2 ok_rw (children e) cs ->
+  simplify e cs = Ok (Some r) -> ok_rw e r /\ mu r < mu (rebuild e cs).
+Proof.
+  intros Hwt Hok Hs. destruct (rebuild_ok e cs Hwt Hok) as (Hrb & Hchild & Hsimp).
+  assert (Hs' : simplify (rebuild e cs) (children (rebuild e cs)) = Ok (Some r)) by (rewrite Hchild; congruence).
+  split.
+  - eapply ok_rw_trans; [exact Hrb|]. now apply simplify_sound; [apply Hrb|].
+  - now apply simplify_decreases; [apply Hrb|].
+Qed.
+
 (** ** children *)
 Definition total_at (n : nat) (c : expr) : Prop :=
   simp n c = SPanic \/ exists r, simp n c = SOk r /\ mu r <= mu c.
